@@ -170,6 +170,54 @@ pub fn on_trans(tc: &TransCtx, sink: &mut Sink) {
     }
 }
 
+/// A book carried over from an earlier version: every old-format seed must have become exactly the
+/// current-format bid the reference fold over its event log gives (C15), so that its owner can
+/// still be made whole (C06).
+pub fn check_carried_over(seed: &[(Vec<u8>, Vec<u8>)], st: &StateCtx, sink: &mut Sink) {
+    for (k, v) in seed {
+        let id = match k.strip_prefix(BID_PREFIX) {
+            Some(i) => lossy(i),
+            None => continue,
+        };
+        let old: serde_json::Value = match serde_json::from_slice(v) {
+            Ok(x) => x,
+            Err(_) => continue,
+        };
+        let events = match old.get("events").and_then(|e| e.as_array()) {
+            Some(e) => e,
+            None => continue,
+        };
+        let (sb, sq, sf) = crate::mig::fold_log(events);
+        sink.c("C15/carried-over-bids-compared-with-reference-conversion");
+        let num = |x: &serde_json::Value| x.get("amount").and_then(|a| a.as_str()).and_then(|s| s.parse::<u128>().ok()).unwrap_or(0);
+        let sv = |f: &str| old.get(f).and_then(|x| x.as_str()).unwrap_or("").to_string();
+        let exp = RefBid {
+            key: id.clone(),
+            id: sv("id"),
+            owner: sv("owner"),
+            base_denom: old["base"]["denom"].as_str().unwrap_or("").to_string(),
+            size: num(&old["base"]),
+            price: sv("price"),
+            quote_denom: old["quote"]["denom"].as_str().unwrap_or("").to_string(),
+            quote: num(&old["quote"]),
+            fee: if old["fee"].is_null() { None } else { Some((old["fee"]["denom"].as_str().unwrap_or("").to_string(), num(&old["fee"]))) },
+            acc_base: sb,
+            acc_quote: sq,
+            acc_fee: sf,
+        };
+        match st.book.bids.get(&id) {
+            Some(got) if *got == exp => {}
+            got => {
+                sink.v("C15", "C15/carried-over-bid-differs-from-reference-conversion".into(), format!("expected {exp:?}, on the book {got:?}"));
+                let same_rem = got.map_or(false, |g| (g.rem_base(), g.rem_quote(), g.rem_fee()) == (exp.rem_base(), exp.rem_quote(), exp.rem_fee()) && g.owner == exp.owner);
+                if !same_rem {
+                    sink.v("C06", "C06/carried-over-bid-records-other-remaining-amounts-than-were-escrowed".into(), format!("escrow still held for it {:?}, recorded {:?}", (exp.rem_base(), exp.rem_quote(), exp.rem_fee()), got.map(|g| (g.rem_base(), g.rem_quote(), g.rem_fee()))));
+                }
+            }
+        }
+    }
+}
+
 /// C13 consequence: an admissible price times a lot-multiple size is never refused as fractional
 fn c13_integrality(tc: &TransCtx, err: &str, sink: &mut Sink) {
     if !err.contains("must be an integer") {
@@ -926,6 +974,14 @@ fn c02_c03_match(tc: &TransCtx, sink: &mut Sink) {
                         format!("ask {:?} bid {:?}", book.asks.get(ask_id), book.bids.get(bid_id)),
                     );
                 }
+                if r.failed == vec!["bid-price-quote-not-whole"] {
+                    // C02: the price improvement (bid price - p) * s is fractional, so no payout can be exactly it
+                    sink.v(
+                        "C02",
+                        "C02/price-improvement-refund-cannot-be-exact".into(),
+                        format!("size {size} at {price} against bid {:?}: (bid price - p) * s is not a whole amount; observed {:?}", book.bids.get(bid_id), tc.net),
+                    );
+                }
                 return;
             }
             // C02: settlement
@@ -1197,6 +1253,16 @@ fn c04_reversal(tc: &TransCtx, sink: &mut Sink) {
                 add(&mut e, CONTRACT, denom, -(c as i128));
             }
             let e = clean(e);
+            // C08: the approver's unconsumed part really comes back (right mechanism for its denomination)
+            if let AskClass::Ready { approver, denom, .. } = &ask.class {
+                for f in tc.acc().unwrap().flows.iter().filter(|f| &f.to == approver && &f.denom == denom && f.from == CONTRACT) {
+                    let by_transfer = matches!(f.kind, FlowKind::MarkerTransfer { .. });
+                    sink.c("C08/approver-share-return-mechanism-checked");
+                    if by_transfer != tc.st.cfg.restricted(denom) {
+                        sink.v("C08", format!("C08/{kind}/approver-share-returned-by-the-wrong-mechanism"), format!("{f:?}; {denom} restricted: {}", tc.st.cfg.restricted(denom)));
+                    }
+                }
+            }
             if e != tc.net {
                 sink.v(
                     "C04",
